@@ -58,6 +58,19 @@ def enc(kind, v):
     return int(v)
 
 
+def sess_of(case, t):
+    """the db_session options of thread t: immediate, ddl, serializable, optimistic and the form (context manager / decorator)"""
+    d = {'imm': False, 'ddl': False, 'ser': False, 'opt': True, 'form': 'with'}
+    if 'sess' in case: d.update(case['sess'][t])
+    elif 'sessOpt' in case: d['opt'] = bool(case['sessOpt'][t])
+    return d
+
+
+def declared(d):
+    """INTENDED flags of a session (not computed by Pony): (transaction starts with the first statement, optimistic checks on)"""
+    return (d['imm'] or d['ddl'] or d['ser'] or not d['opt'], d['opt'] and not d['ser'])
+
+
 class Cur(sqlite3.Cursor):
     def execute(self, sql, *args):
         ctx = getattr(tl, 'ctx', None)
@@ -168,8 +181,10 @@ class Env(object):
 
 class Ctx(object):
     """per worker thread: scheduling, statement hook, oracle bookkeeping"""
-    def __init__(self, tid, env, sched, opt):
-        self.tid = tid; self.env = env; self.sched = sched; self.opt = opt
+    def __init__(self, tid, env, sched, sess):
+        self.tid = tid; self.env = env; self.sched = sched; self.sess = sess
+        self.imm0, self.opt = declared(sess)
+        self.kw = dict(immediate=sess['imm'], ddl=sess['ddl'], serializable=sess['ser'], optimistic=sess['opt'])
         self.nstmt = 0; self.suppress = False
         self.events = []
         self.txn_sets = []
@@ -245,7 +260,7 @@ class Ctx(object):
     def snap(self):
         cache = core.local.db2cache.get(self.env.db)
         if cache is None or not cache.is_alive:
-            return {'alive': False, 'inTxn': False, 'immediate': not self.opt, 'toSave': [], 'qcache': 0, 'forUpd': [], 'objs': []}
+            return {'alive': False, 'inTxn': False, 'immediate': self.imm0, 'toSave': [], 'qcache': 0, 'forUpd': [], 'objs': []}
         E = self.env.E
         bits = [E._bits_[getattr(E, n)] for n in NAMES]
         objs = []
@@ -330,14 +345,18 @@ def worker(ctx, prog):
     try:
         while i < len(prog):
             try:
-                with db_session(optimistic=ctx.opt):
+                def session_body():
+                    nonlocal i
                     ctx.new_session()
                     while prog[i]['k'] != 'close':
                         ctx.begin_op()
                         res, v = do_op(ctx, prog[i])
                         i += 1
                         ctx.yield_((res, v))
-                    ctx.begin_op()      # leaving the block = the `close` operation
+                    ctx.begin_op()      # leaving the session = the `close` operation
+                if ctx.sess['form'] == 'decorator': db_session(**ctx.kw)(session_body)()
+                else:
+                    with db_session(**ctx.kw): session_body()
                 ctx.new_session()
                 i += 1
                 if i < len(prog): ctx.yield_(('ok', None))
@@ -358,7 +377,7 @@ def run_real(env, case):
     env.reset(case['rows'])
     n = len(case['progs'])
     sched = Sched(n)
-    ctxs = [Ctx(t, env, sched, case['sessOpt'][t]) for t in range(n)]
+    ctxs = [Ctx(t, env, sched, sess_of(case, t)) for t in range(n)]
     threads = [threading.Thread(target=worker, args=(ctxs[t], case['progs'][t]), daemon=True) for t in range(n)]
     for th in threads: th.start()
     finished = [False] * n
@@ -392,7 +411,8 @@ def run_real(env, case):
 
 def model_request(case, picks):
     return {'op': 'run', 'attrs': list(range(len(ATTRS))), 'lazy': LAZY, 'volatile': VOLATILE, 'nonopt': NONOPT,
-            'sessOpt': case['sessOpt'], 'objs': OBJS,
+            'sessOpt': [declared(sess_of(case, t))[1] for t in range(len(case['progs']))],
+            'sessImm': [bool(sess_of(case, t)['imm'] or sess_of(case, t)['ddl']) for t in range(len(case['progs']))], 'objs': OBJS,
             'store': [[o, a, case['rows'][o][a]] for o in OBJS for a in range(len(ATTRS))],
             'progs': case['progs'], 'picks': picks}
 
@@ -513,7 +533,16 @@ def gen_case(rng, uid):
     else:               # nearly serial
         order = list(range(n)); rng.shuffle(order)
         picks = [t for t in order for _ in range(len(progs[t]) + 3)]
-    return {'sessOpt': sess_opt, 'rows': rows, 'progs': progs, 'picks': picks}
+    sess = []
+    for t in range(n):
+        r = rng.random()
+        d = {'imm': False, 'ddl': False, 'ser': False, 'opt': sess_opt[t], 'form': 'decorator' if rng.random() < 0.3 else 'with'}
+        if r < 0.15: d['imm'] = True
+        elif r < 0.22: d['ddl'] = True
+        elif r < 0.28: d['ser'] = True
+        elif r < 0.31: d.update(imm=True, ser=rng.random() < 0.5, ddl=rng.random() < 0.5)
+        sess.append(d)
+    return {'sess': sess, 'rows': rows, 'progs': progs, 'picks': picks}
 
 
 def template_cases(rng, limit):
@@ -559,6 +588,19 @@ def template_cases(rng, limit):
             for p in pos: picks[p] = 0
             picks = [100 + t for t in picks]       # op-level interleaving (statement-level ones come from the random cases)
             cases.append({'sessOpt': [True, True], 'rows': rows, 'progs': [p0, p1], 'picks': picks})
+    # every combination of the db_session options, as context manager and as decorator: read, commit() inside the session,
+    # a concurrent update, then a write from the cached object (refused iff the session is optimistic BY DECLARATION)
+    for imm, ddl, ser, opt in itertools.product((False, True), repeat=4):
+        for form in ('with', 'decorator'):
+            sA = {'imm': imm, 'ddl': ddl, 'ser': ser, 'opt': opt, 'form': form}
+            p0 = [G, rd(0), K, wr(1, 75), C]; p1 = [G, wr(0, 85), C]
+            l0, l1 = len(p0), len(p1)
+            for q in ((3,) if limit < 40 and (imm, ddl, ser, opt, form) not in ((True, False, False, True, 'with'), (False, True, False, True, 'with')) else (2, 3, 4)):
+                pos = tuple(range(q)) + tuple(range(q + l1, l0 + l1))
+                picks = [101] * (l0 + l1)
+                for p in pos: picks[p] = 100
+                cases.append({'sess': [sA, {'imm': False, 'ddl': False, 'ser': False, 'opt': True, 'form': 'with'}], 'rows': rows,
+                              'progs': [p0, p1], 'picks': picks})
     # a session with two transactions: what it read (also a None) and what it flushed in the first one must still be
     # checked by the UPDATE of the second one (`_update_dbvals_`, `rbits |= wbits` at the end of `_save_updated_`)
     rowsN = {1: [1, -1, 1, 1, 1, 1, -1, 1], 2: [2, -1, 2, 2, 2, 2, -1, 2]}
@@ -648,7 +690,8 @@ def shape_cases(rng, limit, prime_null):
 
 
 def canon_case(case):
-    return {'sessOpt': case['sessOpt'], 'rows': {str(o): r for o, r in case['rows'].items()}, 'progs': case['progs'], 'picks': case['picks']}
+    return {'sess': [sess_of(case, t) for t in range(len(case['progs']))], 'rows': {str(o): r for o, r in case['rows'].items()},
+            'progs': case['progs'], 'picks': case['picks']}
 
 
 def shrink(env, case, kinds):
@@ -809,7 +852,10 @@ def run(ctx, extra_cases=()):
 
 def load_case(d):
     d = d.get('input', d)
-    return {'sessOpt': d['sessOpt'], 'rows': {int(o): r for o, r in d['rows'].items()}, 'progs': d['progs'], 'picks': d['picks']}
+    c = {'rows': {int(o): r for o, r in d['rows'].items()}, 'progs': d['progs'], 'picks': d['picks']}
+    if 'sess' in d: c['sess'] = d['sess']
+    else: c['sessOpt'] = d['sessOpt']
+    return c
 
 
 def replay(ctx, data):
